@@ -135,14 +135,16 @@ def setup_dir(with_sudo=True, with_cset=False):
     return W
 
 
-def config(W, end, profiling, env):
+def config(W, end, profiling, env, env_b=None):
     execu = {"path": "/x", "executable": "exe"}
     if env:
         execu["env"] = env
     if profiling:
         execu["profiler"] = {"perf": {"record_args": "record -g", "report_args": "report --stdio"}}
     cmd = "%(benchmark)s %(invocation)s"
-    suites = {"S": {"gauge_adapter": "RebenchLog", "command": cmd, "benchmarks": ["Ba", "Bb"]}}
+    # the run's env is that of the most specific level that defines one: Bb may have its own
+    suites = {"S": {"gauge_adapter": "RebenchLog", "command": cmd,
+                    "benchmarks": ["Ba", ({"Bb": {"env": env_b}} if env_b is not None else "Bb")]}}
     exp = {"executions": [{"E": {"suites": ["S"]}}]}
     if end == "config-error":
         # rejected when the command line of a run of S2 is constructed, i.e. while the runs are executed
@@ -184,12 +186,13 @@ def in_process_part(chk, exprs):
         profiling = rng.random() < 0.25 and end != "config-error"
         with_cset = rng.random() < 0.4
         env = rng.choice([None, {"K1": "v"}, {"A": "1", "B_2": "x y"}])
+        env_b = rng.choice([None, None, {"ONLY_B": "1"}, {"A": "2", "Z": "z"}, {}])
         W = setup_dir(with_sudo=(rname != "no-sudo"), with_cset=with_cset)
         try:
             if rtext is not None:
                 open(os.path.join(W, "report.txt"), "w").write(rtext)
                 open(os.path.join(W, "report.rc"), "w").write(str(rrc))
-            raw = config(W, end, profiling, env)
+            raw = config(W, end, profiling, env, env_b)
             cli.write_yaml(os.path.join(W, "c.yaml"), raw)
             log = os.path.join(W, "events.log")
             nstart = {"n": 0}
@@ -214,7 +217,7 @@ def in_process_part(chk, exprs):
                 rc, out = run_main(argv, W, os.path.join(W, "bin") + ":/usr/bin:/bin")
             finally:
                 swt.run, prof.run = o_run, o_prun
-            case = dict(report=rname, end=end, profiling=profiling, cset=with_cset, env=env, rc=rc)
+            case = dict(report=rname, end=end, profiling=profiling, cset=with_cset, env=env, env_of_Bb=env_b, rc=rc)
             events = [l.rstrip("\n") for l in open(log)] if os.path.exists(log) else []
             sudo_calls = [e for e in events if e.startswith("SUDO ")]
             starts = [e[len("START "):] for e in events if e.startswith("START ")]
@@ -259,12 +262,13 @@ def in_process_part(chk, exprs):
                     continue
                 pres = [t for t in toks if t.startswith("--preserve-env=")]
                 keys = pres[0][len("--preserve-env="):].split(",") if pres else []
+                run_env = env_b if (env_b is not None and " Bb " in rest + " ") else env
                 if ("--without-nice" in toks) != (not granted_nice) or ("--without-shielding" in toks) != (not granted_shield) \
-                        or ("--for-profiling" in toks) != profiling or sorted(keys) != sorted((env or {}).keys()) or len(pres) > 1 \
+                        or ("--for-profiling" in toks) != profiling or sorted(keys) != sorted((run_env or {}).keys()) or len(pres) > 1 \
                         or ("--cset-path" in toks) != (granted_shield and with_cset) or toks[toks.index("--num-cores") + 1] != str(ncores):
                     chk.violation("C20 the wrapper carries exactly the flags of what was not granted, --for-profiling iff profiling, and "
                                   "--preserve-env with exactly the run's env keys", case,
-                                  dict(nice=granted_nice, shield=granted_shield, profiling=profiling, env=sorted((env or {}).keys()), cset=with_cset), s)
+                                  dict(nice=granted_nice, shield=granted_shield, profiling=profiling, env=sorted((run_env or {}).keys()), cset=with_cset), s)
                     break
                 # model
                 exprs.append((case, "wrapper", toks,
